@@ -235,6 +235,7 @@ export const ATOMS = [
   ['{ x: number }', ['Object'], ['({ x: 1 })']], ['{ (): void }', ['Function'], ['(() => {})']], ['Record<string, number>', ['Object'], ['({ a: 1 })']], ['Object', ['Object'], ['({})']],
   ['Date', ['Date'], ['new Date(0)']], ['Map<string, number>', ['Map'], ['new Map()']], ['Set<string>', ['Set'], ['new Set()']], ['WeakMap<object, number>', ['WeakMap'], ['new WeakMap()']], ['WeakSet<object>', ['WeakSet'], ['new WeakSet()']],
   ['Promise<string>', ['Promise'], ['Promise.resolve("p")']], ['RegExp', ['RegExp'], ['/x/']], ['Error', ['Error'], ['new Error("e")']],
+  ['Exclude<string | null | undefined, undefined>', ['String', null], ['"ex"', 'null']], ['Exclude<number | null, void>', ['Number', null], ['1', 'null']],
   ['any', 'ANY', ['5', '"s"', '({})', 'null']], ['unknown', 'ANY', ['5', '(() => 1)']], ['null', [null], ['null']],
   ['Partial<{ a: 1 }>', ['Object'], ['({})']], ['Required<{ a?: 1 }>', ['Object'], ['({ a: 1 })']], ['Readonly<{ a: 1 }>', ['Object'], ['({ a: 1 })']], ["Pick<{ a: 1; b: 2 }, 'a'>", ['Object'], ['({ a: 1 })']], ["Omit<{ a: 1; b: 2 }, 'a'>", ['Object'], ['({ b: 2 })']],
   ["Uppercase<'a'>", ['String'], ['"A"']], ["Lowercase<'A'>", ['String'], ['"a"']], ["Capitalize<'ab'>", ['String'], ['"Ab"']], ["Uncapitalize<'Ab'>", ['String'], ['"ab"']],
@@ -250,7 +251,7 @@ export function atomNode([src, ctors, inh]) {
 export function randomTypeExpr(rng, depth, out) {
   const pickAtom = () => atomNode(rng.pick(ATOMS));
   if (depth === 0) return pickAtom();
-  const op = rng.pick(['atom', 'union', 'union', 'alias', 'paren', 'tupleIndex', 'arrayIndex', 'propIndex', 'nonNullable', 'nonNullableNullFirst', 'aliasOfUnion', 'interfaceIndex', 'interfaceMethodIndex', 'typeLitMethodIndex', 'tupleNumberIndex', 'typeLitQuotedIndex', 'quotedKeyUnionIndex', 'keyAliasIndex']);
+  const op = rng.pick(['atom', 'union', 'union', 'alias', 'paren', 'tupleIndex', 'arrayIndex', 'propIndex', 'nonNullable', 'nonNullableNullFirst', 'aliasOfUnion', 'interfaceIndex', 'interfaceMethodIndex', 'typeLitMethodIndex', 'tupleNumberIndex', 'typeLitQuotedIndex', 'quotedKeyUnionIndex', 'keyAliasIndex', 'optionalTupleNumberIndex', 'optionalTupleLiteralIndex']);
   const decl = (t) => out.decls.push({ text: t });
   const sub = () => randomTypeExpr(rng, depth - 1, out);
   const union = (a, b) => ({ ctors: [...a.ctors, ...b.ctors.filter((c) => !a.ctors.includes(c))], inhabitants: [...a.inhabitants, ...b.inhabitants] });
@@ -277,6 +278,9 @@ export function randomTypeExpr(rng, depth, out) {
     // (keys listed in the members' declaration order: which of the two orders counts is not decided by the statement)
     case 'quotedKeyUnionIndex': { const a = sub(), b = sub(); const n = fresh('Q'); const iface = rng.bool(); decl(iface ? `interface ${n} { 'aria-label': ${a.src}; plain: ${b.src}; other: symbol }` : `type ${n} = { 'aria-label': ${a.src}; plain: ${b.src}; other: symbol };`); return { src: `${n}["aria-label" | "plain"]`, ...union(a, b), ops: ['quotedKeyUnionIndex', ...a.ops, ...b.ops] }; }
     case 'keyAliasIndex': { const a = sub(), b = sub(); const n = fresh('Q'), k = fresh('K'); decl(`type ${n} = { plain: ${a.src}; 'data-id': ${b.src}; other: symbol };`); decl(`type ${k} = 'plain' | 'data-id';`); return { src: `${n}[${k}]`, ...union(a, b), ops: ['keyAliasIndex', ...a.ops, ...b.ops] }; }
+    // tuples with optional elements
+    case 'optionalTupleNumberIndex': { const a = sub(), b = sub(); const viaAlias = rng.bool(); const t = `[${a.src}, (${b.src})?]`; const n = viaAlias ? fresh('R') : null; if (n) decl(`type ${n} = ${t};`); return { src: `${n ?? t}[number]`, ...union(a, b), ops: ['optionalTupleNumberIndex', ...a.ops, ...b.ops] }; }
+    case 'optionalTupleLiteralIndex': { const a = sub(), b = sub(); return { ...b, src: `[${a.src}, (${b.src})?][1]`, ops: ['optionalTupleLiteralIndex', ...b.ops] }; }
     case 'nonNullable': { const a = sub(); return { src: `NonNullable<${a.src} | null>`, ctors: a.ctors.filter((c) => c !== null), inhabitants: a.inhabitants.filter((x) => x.js !== 'null'), ops: ['nonNullable', ...a.ops] }; }
     default: throw new Error(op);
   }
